@@ -451,6 +451,11 @@ def corpus():
                           ['touch', 'a|b"c.txt', 400_000_000], ['touch', ' lead é.dat', 499_999_999], ['touch', 'sub/deep/x', 500_000_001]]},
                 [{'opts': d, 'single': None, 'efile': True}, {'opts': [True, False, False], 'single': None, 'efile': True}]))
     out.append(({'root': 'T', 'files': [], 'muts': [], 'relocate': 0}, [{'gen': True}, {'opts': d, 'single': None, 'efile': True}]))
+    # exactly 256 (and 512 = 256 deleted + 256 flipped would be too slow: 256 deleted) recorded files in error: the exit status seen by
+    # the caller of the command must still be non-zero (an error COUNT used as exit status wraps to 0 modulo 256)
+    many = [f('m/%03d.t' % i, ['r', 1000 + i, 3], 1_300_000_000 + i) for i in range(256)] + [f('keep.t', ['r', 7, 3], 1_200_000_000)]
+    out.append(({'root': 'T', 'files': many, 'relocate': 0, 'muts': [['delete', 'm/%03d.t' % i] for i in range(256)]},
+                [{'opts': d, 'single': None, 'efile': True}]))
     return out
 
 
